@@ -391,6 +391,9 @@ class PipeEnd(object):
         self.closed = True
         if self.peer is not None:
             self.peer.eof = True
+        if self.net.close_error_for and self.name.startswith(self.net.close_error_for):
+            # close() has released the connection and reports an error left over from earlier (EIO / ECONNRESET on some systems)
+            raise OSError(5, 'Input/output error')
 
     def shutdown(self, how):
         self.flush()
@@ -422,6 +425,7 @@ class Net(object):
         self.wire = []
         self.ends = []
         self.fail_send_after_close = False
+        self.close_error_for = None    # name prefix of the pipe ends whose close() reports an error ('c' clients, 's' servers)
         self.nconn = 0
         self.seg = None
         self.straddle = None
